@@ -851,10 +851,22 @@ def sync_projects(
     logger.more(f"Synchronizing {N} jobs.")
     count = ddict(int)
 
+    if exclude is None:
+        clone_copytree = proxy.copytree
+    else:
+        # Files matching the exclude pattern are not copied into new jobs either.
+        exclude_patterns = exclude if isinstance(exclude, list) else [exclude]
+
+        def _ignore_excluded(path, names):
+            return [n for n in names if any(re.match(p, n) for p in exclude_patterns)]
+
+        def clone_copytree(src, dst):
+            proxy.copytree(src, dst, ignore=_ignore_excluded)
+
     def _clone_or_sync(src_job):
         """Clone a job if it does not exist, or sync if it exists."""
         try:
-            destination.clone(src_job, copytree=proxy.copytree)
+            destination.clone(src_job, copytree=clone_copytree)
             logger.more(f"Cloned job '{src_job}'.")
             return 1
         except DestinationExistsError:
